@@ -640,7 +640,19 @@ def oracle_handler(case, out):
             return None                      # the scripted plugin's own output is not the handler's
         if gone:
             return None
-        h = h11_parse(fin['out'], fin['method'] == b'CONNECT')
+        connect = fin['method'] == b'CONNECT'
+        if scripted:
+            # a scripted HttpRequestRejected whose arguments lie outside the builders' domain for this
+            # request (e.g. a 2xx status with a body in reply to CONNECT) is the plugin's own doing
+            specs = [out['orc']['end']] if out.get('orc') else []
+            specs += [o['end'] for o in out.get('ocd', [])]
+            for sp in specs:
+                if sp[0] == 'raise' and sp[1][0] == 'rejected' and sp[1][1]:
+                    x = sp[1]
+                    a = dict(status=x[1], version=b'HTTP/1.1', reason=x[2], headers=x[3], body=x[4], conn_close=True, no_cl=False)
+                    if call_build(a) == fin['hq'][0] and not wf_args_py(a, connect):
+                        return None
+        h = h11_parse(fin['out'], connect)
         if not h['ok']:
             return 'what the client received is not exactly one well-formed response followed by EOF: %s (%r...)' % (h['why'], fin['out'][:60])
         return None
